@@ -87,6 +87,10 @@ func (ec *evalCtx) objVal(obj types.Object, name string) (Val, bool) {
 		case KStr:
 			return Val{T: ec.fc.strLit(constant.StringVal(o.Val())), GoT: o.Type()}, true
 		}
+	case *types.Func:
+		if fn, ok := ec.fc.P.Funcs[o.Name()]; ok {
+			return Val{Clo: &Closure{Fn: fn}, GoT: o.Type()}, true
+		}
 	case *types.Var:
 		// global variable: read its cell in the current state
 		key := "g:" + name
